@@ -342,3 +342,81 @@ var hostExt = "x-pad:\n" + strings.Repeat("  - pad\n", 40) + `components:
           type: number
           multipleOf: 0.5
 `
+
+// hostMore: valid shapes that earlier rounds found to break the generator on their own:
+// structurally equal recursive default responses under different names (the
+// convenient-errors comparison), a custom oauth2 scheme used by two operations, enums
+// with a null before other values and with a value that starts with U+FFFD.
+const hostMore = `openapi: 3.0.3
+info:
+  title: more
+  version: "1"
+paths:
+  /foo:
+    get:
+      operationId: foo
+      security:
+        - oa: [read]
+      responses:
+        "200":
+          description: ok
+          content:
+            application/json:
+              schema:
+                $ref: '#/components/schemas/Holder'
+        default:
+          description: err
+          content:
+            application/json:
+              schema:
+                $ref: '#/components/schemas/ErrA'
+  /bar:
+    get:
+      operationId: bar
+      security:
+        - oa: [write]
+      responses:
+        "200":
+          description: ok
+        default:
+          description: err
+          content:
+            application/json:
+              schema:
+                $ref: '#/components/schemas/ErrB'
+components:
+  securitySchemes:
+    oa:
+      type: oauth2
+      x-ogen-custom-security: true
+      flows:
+        implicit:
+          authorizationUrl: https://example.com/auth
+          scopes:
+            read: r
+            write: w
+  schemas:
+    Holder:
+      type: object
+      properties:
+        state:
+          type: string
+          nullable: true
+          enum: [null, "on", "off"]
+        level:
+          type: integer
+          enum: [null, 1, 2]
+        odd:
+          type: string
+          enum: ["\uFFFDa", "b"]
+    ErrA:
+      type: object
+      properties:
+        cause:
+          $ref: '#/components/schemas/ErrA'
+    ErrB:
+      type: object
+      properties:
+        cause:
+          $ref: '#/components/schemas/ErrB'
+`
